@@ -124,20 +124,15 @@ Definition ensure_bs (s : st) (n sig : nat) (bd : bdarg) : st * option exc :=
     match dir with
     | None => (set_bs s1 g (ideal n sig) n sig (dk s), None)
     | Some di =>
-        (* generate, extending the largest file found (_bs_basex(n, sigma, oldM):
-           `M[:old_n, :old_nbf] = oldM / sigma` raises ValueError when oldM does
-           not fit: a larger good file, or the wrong-shape file of the harness,
-           which is wider than any basis), then save under the exact name *)
+        (* generate, possibly extending the largest file found (_bs_basex(n, sigma,
+           oldM): same content), then save under the exact name *)
         let generate :=
           if dir_writable di
           then (set_bs s1 g (ideal n sig) n sig (put_file fkey_eqb di (n, sig) (FGood (ideal n sig)) (dk s)), None)
           else (s1, Some EOther) in
-        let regenerate :=
-          match old_basis n sig di (dk s) with
-          | Some (FGood x) => if n <? x_n x then (s1, Some EValue) else generate
-          | Some FShape => (s1, Some EValue)
-          | _ => generate
-          end in
+        (* (the file to extend is used only if it has the shape its name promises
+           and is not larger than n — fix 6203711 — so the content is the same) *)
+        let regenerate := generate in
         match pick n sig di (dk s) with
         | None => regenerate
         | Some (_, FBad PValue) => regenerate            (* except ValueError *)
@@ -303,8 +298,7 @@ Definition hazard (s : st) (o : op) : bool :=
 Fixpoint no_hazard (s : st) (ops : list op) : bool :=
   match ops with [] => true | o :: r => negb (hazard s o) && no_hazard (fst (step s o)) r end.
 
-Definition damage (o : op) : bool :=
-  match o with Seed _ _ (FBad _) | Seed _ _ FShape => true | _ => false end.
+Definition damage (o : op) : bool := match o with Seed _ _ (FBad _) => true | _ => false end.
 Fixpoint no_damage (ops : list op) : bool :=
   match ops with [] => true | o :: r => negb (damage o) && no_damage r end.
 
